@@ -37,15 +37,24 @@ IntendedLast(e) ==
                              sinks |-> ComSinks(e.mod)]
 Written == virgin' = [f \in Files |-> IF f \in last'.sinks THEN 0 ELSE virgin[f]]
 
-(* DEVIATION of the code (mlzlog opens a log file with the first record but closes it unconditionally at the    *)
-(* first rollover): a file handler that did not write anything on the day of its creation never writes at all   *)
-Dev_LostAfterMidnight(e) ==
+(* DEVIATIONS of the code                                                                                       *)
+(* Dev_LostAfterMidnight: mlzlog opens a log file with the first record but closes it unconditionally at the    *)
+(*   first rollover: a file handler that did not write anything on the day of its creation never writes at all  *)
+(* Dev_TextSwitchOn: HasComlog tests generalConfig.comlog for truth, a config file gives text: "False" / "0"    *)
+(*   switch the communication log on (the boot event tells how the switch was spelled)                          *)
+TextOff == /\ Traces[t][1].ev = "boot" /\ Has(Traces[t][1], "comlog_off_as_text") /\ Traces[t][1].comlog_off_as_text
+           /\ ~cfg.gcomlog /\ cfg.mcomlog /\ cfg.ginit
+Deviating(e) ==
     LET il == IntendedLast(e)
-        lost == {f \in il.sinks \cap Files : virgin[f] # 0 /\ virgin[f] < day}
-    IN /\ lost # {}
-       /\ last' = [il EXCEPT !.sinks = il.sinks \ lost]
-       /\ Write(il.sinks \ lost)
+        extra == IF e.ev = "comlog" /\ TextOff THEN {e.mod} ELSE {}
+        reached == il.sinks \cup extra
+        lost == {f \in reached \cap Files : virgin[f] # 0 /\ virgin[f] < day}
+        used == (IF extra # {} THEN {"Dev_TextSwitchOn"} ELSE {}) \cup (IF lost # {} THEN {"Dev_LostAfterMidnight"} ELSE {})
+    IN /\ used # {}
+       /\ last' = [il EXCEPT !.sinks = reached \ lost]
+       /\ Write(reached \ lost)
        /\ UNCHANGED <<level, alive, cfg, day>>
+       /\ devs' = devs \cup used
 
 TStep ==
   /\ l <= Len(Traces[t])
@@ -58,16 +67,16 @@ TStep ==
         /\ UNCHANGED <<devs, virgin>>
      \/ /\ Ev.ev = "emit"
         /\ \/ Emit(Ev.mod, Ev.lvl) /\ UNCHANGED devs
-           \/ Dev_LostAfterMidnight(Ev) /\ devs' = devs \cup {"Dev_LostAfterMidnight"}
+           \/ Deviating(Ev)
         /\ last'.to = ToSet(Ev.to)
         /\ Written
      \/ /\ Ev.ev = "mainemit"
         /\ \/ MainEmit(Ev.lvl) /\ UNCHANGED devs
-           \/ Dev_LostAfterMidnight(Ev) /\ devs' = devs \cup {"Dev_LostAfterMidnight"}
+           \/ Deviating(Ev)
         /\ Written
      \/ /\ Ev.ev = "comlog"
         /\ \/ ComLog(Ev.mod) /\ UNCHANGED devs
-           \/ Dev_LostAfterMidnight(Ev) /\ devs' = devs \cup {"Dev_LostAfterMidnight"}
+           \/ Deviating(Ev)
         /\ last'.to = ToSet(Ev.to)
         /\ Written
      \/ /\ Ev.ev = "nextday" /\ NextDay /\ UNCHANGED <<devs, virgin>>
